@@ -155,7 +155,7 @@ RETCODE adfReadBitmap ( struct AdfVolume * const        vol,
         j++; i++;
     }
     nSect = root->bmExt;
-    while ( nSect != 0 ) {
+    while ( nSect != 0 && j < vol->bitmapSize ) {   /* (a cyclic chain ends when all pages are loaded) */
         /* bitmap pointers in bitmapExtBlock, j <= mapSize */
         rc = adfReadBitmapExtBlock ( vol, nSect, &bmExt );
         if ( rc != RC_OK ) {
